@@ -112,7 +112,7 @@ SumPieces(ms, i) == IF i > Len(ms) THEN 0 ELSE Area2(PieceRing(ms[i])) + SumPiec
 JudgeMono(e) ==
     IF e.st # "ok" THEN e.st
     ELSE LET ms == e.pieces  ps == e.p.ps  V == PolyVerts(ps) IN
-    IF \E k \in 1 .. 225 : (e.hits[k] = 1) # NotOut(ps, FineSeq[k]) THEN "intersects_coordinate"
+    IF \E k \in 1 .. 225 : (e.hits[k] = 1) # NotOut(ps, <<-1 + e.step * (FineSeq[k][1] + 1), -1 + e.step * (FineSeq[k][2] + 1)>>) THEN "intersects_coordinate"
     ELSE IF \E i \in DOMAIN ms : Len(ms[i].top) < 2 \/ Len(ms[i].bot) < 2 \/ ms[i].top[1] # ms[i].bot[1]
                                   \/ ms[i].top[Len(ms[i].top)] # ms[i].bot[Len(ms[i].bot)] THEN "chains_do_not_meet"
     ELSE IF \E i \in DOMAIN ms : \E c \in Range(ms[i].top) \cup Range(ms[i].bot) : c \notin V THEN "corner_not_a_vertex"
